@@ -47,7 +47,7 @@ func ruleRandomBits(e *Env) {
 	site := flow.FnName(fn)
 	// every (*rand.Rand).Int63() call yields a fresh 63-bit symbol (bit 63 clear, documented by math/rand)
 	draws := 0
-	ev := &pred.Evaluator{Prog: e.P.SSA, Oracle: noOracle{}, Summaries: map[string]pred.Summary{
+	ev := &pred.Evaluator{Prog: e.P.SSA, GlobalInit: e.globalTables(), Oracle: noOracle{}, Summaries: map[string]pred.Summary{
 		"(*math/rand.Rand).Int63": func(ev *pred.Evaluator, args []pred.Val) (pred.Val, error) {
 			draws++
 			v := pred.SymBits(string(rune('a'+draws-1)), 64, true)
